@@ -7,7 +7,23 @@ sys.path.insert(0, os.environ.get("LABELLA_REPO", "/repo"))
 time.tzset()
 import check_time as T
 import timeline_gen as TG
-from common import rng_for, fr
+from common import rng_for, fr, time_limit
+
+
+def scale_lines(TimeScale, d0, d1, m, t):
+    out = []
+    s = TimeScale().domain([T.to_dt(d0), T.to_dt(d1)])
+    tk = s.ticks(m) if m is not None else s.ticks()
+    out.append("tticks|%d|%d|%s|%s" % (d0, d1, fr(10 if m is None else m), T.msl(tk)))
+    s2 = TimeScale().domain([T.to_dt(d0), T.to_dt(d1)])
+    s2.nice(m) if m is not None else s2.nice()
+    dd = s2.domain()
+    if abs(d1 - d0) >= 10:
+        out.append("tnice|%d|%d|%s|%s|%s" % (d0, d1, fr(10 if m is None else m), fr(T.to_ms(dd[0])), fr(T.to_ms(dd[1]))))
+    s3 = TimeScale().domain([T.to_dt(d0), T.to_dt(d1)]).range([0, 360])
+    y = s3(T.to_dt(t))
+    out.append("tscale|%d|%d|0|360|%d|%s|%s" % (d0, d1, t, fr(y), fr(T.to_ms(s3.invert(y)))))
+    return out
 
 
 def main():
@@ -24,7 +40,8 @@ def main():
     for t in ts:
         for u in T.UNITS:
             try:
-                out.append(T.run_cal_case(d3, u, t, rng.choice([0, 1, 5, 30, 400])))
+                with time_limit(10):
+                    out.append(T.run_cal_case(d3, u, t, rng.choice([0, 1, 5, 30, 400])))
             except Exception as e:
                 out.append("ERROR cal %s %d %s" % (u, t, type(e).__name__))
     for _ in range(400 * n):
@@ -34,25 +51,17 @@ def main():
         t1 = min(T.HI, t0 + int(length * rng.choice([0.5, 2.5, 10, 60, 300])))
         dt = rng.choice([1, 2, 3, 6, 12])
         try:
-            out.append("calrange|%s|%d|%d|%d|%s" % (u, t0, t1, dt, T.msl(d3[u].range(T.to_dt(t0), T.to_dt(t1), dt))))
+            with time_limit(10):
+                out.append("calrange|%s|%d|%d|%d|%s" % (u, t0, t1, dt, T.msl(d3[u].range(T.to_dt(t0), T.to_dt(t1), dt))))
         except Exception as e:
             out.append("ERROR calrange %s %d %d %s" % (u, t0, t1, type(e).__name__))
     for _ in range(1500 * n):
         d0, d1 = T.gen_domain(rng)
         m = rng.choice([None, 10, 3, 5, 20])
+        t = rng.randint(min(d0, d1), max(d0, d1))
         try:
-            s = TimeScale().domain([T.to_dt(d0), T.to_dt(d1)])
-            tk = s.ticks(m) if m is not None else s.ticks()
-            out.append("tticks|%d|%d|%s|%s" % (d0, d1, fr(10 if m is None else m), T.msl(tk)))
-            s2 = TimeScale().domain([T.to_dt(d0), T.to_dt(d1)])
-            s2.nice(m) if m is not None else s2.nice()
-            dd = s2.domain()
-            if abs(d1 - d0) >= 10:
-                out.append("tnice|%d|%d|%s|%s|%s" % (d0, d1, fr(10 if m is None else m), fr(T.to_ms(dd[0])), fr(T.to_ms(dd[1]))))
-            s3 = TimeScale().domain([T.to_dt(d0), T.to_dt(d1)]).range([0, 360])
-            t = rng.randint(min(d0, d1), max(d0, d1))
-            y = s3(T.to_dt(t))
-            out.append("tscale|%d|%d|0|360|%d|%s|%s" % (d0, d1, t, fr(y), fr(T.to_ms(s3.invert(y)))))
+            with time_limit(10):
+                out.extend(scale_lines(TimeScale, d0, d1, m, t))
         except Exception as e:
             out.append("ERROR scale %d %d %s" % (d0, d1, type(e).__name__))
     # exported timelines: only digests travel (documents must be byte-identical across zones)
@@ -65,6 +74,7 @@ def main():
         k += 1
         for backend in ("svg", "tikz"):
             try:
+              with time_limit(30):
                 doc = TG.export(TG.construct(spec, backend))
                 if isinstance(doc, str):
                     doc = doc.encode("utf-8")
